@@ -92,6 +92,7 @@ def gen_library(rng):
     """library with three scopes: global, namespace ns, class Cls. returns (scopes, yaml dict)"""
     scopes = []
     decls = []
+    flat = rng.random() < 0.3
     for kind in ("global", "namespace", "class", "class-template"):
         names = rng.sample(NAMES, rng.randint(2, 5))
         fs = distinct_signatures([gen_fn(rng, names) for _ in range(rng.randint(1, 6))])
@@ -133,7 +134,9 @@ def gen_library(rng):
             scopes.append(("", "", "", [f for f, _ in fs]))
         elif kind == "namespace":
             decls.append({"decl": "namespace ns", "declarations": [d for _, d in fs]})
-            scopes.append(("/ns", "ns_", "", [f for f, _ in fs]))     # a namespace has its own Fortran module: no F_name_scope
+            # a namespace has its own Fortran module: no F_name_scope; with F_flatten_namespace its functions live in the library's
+            # module under the scope prefix (specifics AND generic interfaces)
+            scopes.append(("/ns", "ns_", "ns_" if flat else "", [f for f, _ in fs]))
         elif kind == "class":
             decls.append({"decl": "class Cls", "declarations": [d for _, d in fs]})
             scopes.append(("/Cls", "Cls_", "cls_", [f for f, _ in fs]))
@@ -145,6 +148,8 @@ def gen_library(rng):
             scopes.append(("/Vec_int", "Vec_int_", "vec_int_", [f for f, _ in fs]))
             scopes.append(("/Vec_double", "Vec_double_", "vec_double_", [f for f, _ in fs]))
     lib = {"library": "nam", "cxx_header": "nam.hpp", "options": {"wrap_python": True, "wrap_lua": True}, "declarations": decls}
+    if flat:
+        lib["options"]["F_flatten_namespace"] = True
     return scopes, lib
 
 
@@ -287,11 +292,14 @@ def run(ctx):
             for d in set(x.lower() for x in m["specifics"]) & set(x.lower() for x in m["bindc"]):
                 problems.append(("a Fortran specific and a bind(C) interface of module %s share a name" % m["file"], d))
             # generic interfaces of this module: the library module holds the global scope, a namespace module its namespace
+            flat = bool((lib.get("options") or {}).get("F_flatten_namespace"))
             msc = "" if m["file"].lower() == "wrapfnam.f" else ("/ns" if m["file"].lower() == "wrapfnam_ns.f" else None)
+            mscs = ("", "/ns") if (flat and msc == "") else (msc,)
             want = collections.defaultdict(list)
             for x in r["nodes"]:
-                if x["f"] and x["generic"] and x["scope"] == msc:
-                    want[x["generic"].lower()].append(x["f"].lower())
+                if x["f"] and x["generic"] and x["scope"] in mscs:
+                    # the generic interface of a function carries its Fortran scope prefix (empty unless the namespace is flattened)
+                    want[(x.get("fscope", "") + x["generic"]).lower()].append(x["f"].lower())
             for g, procs in m["generics"].items():
                 if names_obs.dups(procs):
                     problems.append(("generic interface %s lists a specific twice" % g, names_obs.dups(procs)[0]))
